@@ -69,9 +69,23 @@ func runExt(lines []string, out *bufio.Writer) {
 			for _, kv := range c.Pairs {
 				h.Add(kv[0], kv[1])
 			}
+			// net/http itself: http.Client turns the userinfo of the request URL into a Basic Authorization header
+			// unless the request already carries one
+			if bu, err := url.Parse(c.Base); err == nil && bu.User != nil && h.Get("Authorization") == "" {
+				pw, _ := bu.User.Password()
+				r, _ := http.NewRequest("GET", "http://x.invalid", nil)
+				r.SetBasicAuth(bu.User.Username(), pw)
+				h.Set("Authorization", r.Header.Get("Authorization"))
+			}
 			fmt.Fprintf(out, "%s ext %s %s\n", c.ID, c.Key, headerString(h))
 		case "encode":
+			// `query_ := req_.URL.Query()` starts from the query string the configured base URL already carries
 			v := url.Values{}
+			if bu, err := url.Parse(c.Base); err == nil && bu.RawQuery != "" {
+				if q, err := url.ParseQuery(bu.RawQuery); err == nil {
+					v = q
+				}
+			}
 			for _, kv := range c.Pairs {
 				v.Set(kv[0], kv[1])
 			}
